@@ -21,7 +21,7 @@ import numpy as np
 from . import common
 
 PROP = "C12"
-GENERATED = True
+GENERATED = ["errors"]
 LEAN_MODULES = ["MiciVerif.Props.C12", "MiciVerif.Props.C12T"]
 LEAN_EXTRA = ["MiciVerif.Model.Solvers", "MiciVerif.Proto", "MiciVerif.Generated.Errors"]
 
